@@ -149,12 +149,15 @@ def m2_loop_form(run, mod, f, masked, st):
     run.ob("M2", len(init) == 1 and norm(init[0].value) == "self._mask", "shift counter starts from the mask",
            "loop mask is not initialised from self._mask", module=mod, node=lp, func="Bit.__get__",
            construct="Bit.__get__ mask init")
-    # the instance branch returns bits
-    inst = st._parent
-    rets = [r for r in ast.walk(inst) if isinstance(r, ast.Return)] if isinstance(inst, ast.If) else []
-    run.ob("M2", len(rets) == 1 and is_name(rets[0].value, bits), "accessor returns the shifted field bits",
-           "instance path does not return the shifted bits", module=mod, node=st, func="Bit.__get__",
-           construct="Bit.__get__ return")
+    # the instance path (obj is not None) runs the shift loop and then returns the shifted bits
+    from .. import paths
+    obj = f.args.args[1].arg
+    inst = [p for p in paths.summarise(mod, f) if p.truth(f"{obj} is None") is False]
+    ok = bool(inst) and all(p.end == "return" and p.value_text() == bits and any(k == "loop" and n_ is lp for k, _e, n_ in p.effects)
+                            for p in inst)
+    run.ob("M2", ok, "accessor returns the shifted field bits",
+           f"instance path does not return the shifted bits: {[(p.end, p.value_text()) for p in inst]}", module=mod, node=st,
+           func="Bit.__get__", construct="Bit.__get__ return")
 
 
 def m2_rows(run, project):
